@@ -72,10 +72,18 @@ def f_placement(case):
     obj = B.np_list(L, K)
     if case['via'] == 'gate':
         g.forward(obj)
-    else:
+    elif case['via'] == 'circuit':
         circ = pc.Circuit(N)
         circ.take(g)
         circ.forward(obj)
+    elif case['via'] == 'circuit-compiled':
+        circ = pc.circuit.CliffordCircuit(N)
+        circ.take(g)
+        circ.compile()
+        circ.forward(obj)
+    else:       # a compiled layer
+        layer = pc.CliffordLayer(g).compile(N)
+        layer.forward(obj)
     l, k = B.read_list(obj)
     el, ek = exp.apply(L, K)
     C.expect_list((l, k), (el, ek), '%s%s on %d qubits' % (name, tuple(q), N), 'action')
@@ -116,14 +124,14 @@ def enum_placement(tier, shard, nshards):
     for N in (1, 2, 3, 4) if tier == 'thorough' else (1, 2, 3):
         for name in 'HSXYZ':
             for q in range(N):
-                for via in ('gate', 'circuit'):
+                for via in ('gate', 'circuit', 'circuit-compiled', 'layer-compiled'):
                     n += 1
                     if n % nshards == shard:
                         yield {'gate': name, 'N': N, 'qubits': [q], 'via': via}
         for c in range(N):
             for t in range(N):
                 if c != t:
-                    for via in ('gate', 'circuit'):
+                    for via in ('gate', 'circuit', 'circuit-compiled', 'layer-compiled'):
                         n += 1
                         if n % nshards == shard:
                             yield {'gate': 'CNOT', 'N': N, 'qubits': [c, t], 'via': via}
